@@ -173,6 +173,20 @@ impl Net {
             let class = locators.iter().find_map(|l| self.classify(to, l));
             let Some(class) = class else { continue };
             if !self.endpoints[to].connected {
+                // addressed to a partitioned participant: lost, but still visible to the wire monitor
+                if self.log_enabled {
+                    self.log.push(WireRecord {
+                        t_ns: now,
+                        from,
+                        to,
+                        class,
+                        data: buf.to_vec().into(),
+                        dropped: true,
+                        delay_ns: 0,
+                        duplicated: false,
+                        attacked: false,
+                    });
+                }
                 continue;
             }
             let class_attacked = match class {
